@@ -990,6 +990,14 @@ func c12SetErrorFlow(p *Prog, r *Report, rule string) {
 		return
 	}
 	f := p.NewFlat(fi.Pkg, lit.Body)
+	if len(lit.Body.List) == 1 && lit.Type.Params.NumFields() == 0 {
+		// the goroutine body is a method of the client (go db.store(ctx, key, up)): splice it in
+		if es, ok := lit.Body.List[0].(*ast.ExprStmt); ok {
+			if c, ok := es.X.(*ast.CallExpr); ok && p.staticCallee(fi.Pkg, c) != nil {
+				f = p.NewFlatInl(fi, lit.Body)
+			}
+		}
+	}
 	if os.Getenv("FSDBCHECK_DUMP") == "create-lit" {
 		fmt.Print(f.Dump())
 	}
